@@ -20,6 +20,13 @@ def V(kind, msg, known=None, **witness):
 # statistics every solver check reports (what the monitors saw)
 # ---------------------------------------------------------------------------
 def common_stats(run, st=None):
+    st = _common_stats(run, st)
+    for f_ in (getattr(run, "cfg", None) or {}).get("_forms", ()) if hasattr(run, "cfg") else ():
+        st["form|" + f_] = st.get("form|" + f_, 0) + 1
+    return st
+
+
+def _common_stats(run, st=None):
     st = st if st is not None else {}
     c = run.ctx
 
@@ -237,3 +244,35 @@ def d22_key(run, cfg, anyfinite):
 def sumsq(r):
     with np.errstate(all="ignore"):
         return float(np.dot(r, r))
+
+
+# ---------------------------------------------------------------------------
+# calling forms (gen.FORMS): what must stay untouched
+# ---------------------------------------------------------------------------
+def form_violations(run):
+    """Arrays the caller owns (bases of the x0 / bound views) must be bit-identical after the call; an array the solver handed to
+    the residual function must not be altered by the solver afterwards (the user may have kept it)."""
+    out = []
+    b = run.built
+    forms = getattr(b, "forms", set())
+    if "x0_view" in forms:
+        want = np.full(len(b.x0_base), 7.25)
+        want[1::2] = np.array(run.cfg["x0"], dtype=float)
+        if not np.array_equal(b.x0_base, want):
+            out.append(V("caller-data-modified", "the array that the x0 view points into was modified", forms=sorted(forms)))
+    if "bounds_view" in forms and hasattr(b, "bounds_base"):
+        base = b.bounds_base
+        if not (np.all(base[:, 0::2] == -3.5)):
+            out.append(V("caller-data-modified", "the array that the bound views point into was modified outside the views", forms=sorted(forms)))
+        for row, key, fill in ((0, "lower", -1e20), (1, "upper", 1e20)):
+            if run.cfg.get(key) is not None:
+                want = np.array([fill if e is None else e for e in run.cfg[key]], dtype=float)
+                if not np.array_equal(base[row, 1::2], want):
+                    out.append(V("caller-data-modified", "the %s bound view was modified" % key, forms=sorted(forms)))
+    if "keeps_x" in forms and "mutates_x" not in forms:
+        for j, (ref, cp) in enumerate(b.kept):
+            if not np.array_equal(ref, cp, equal_nan=True):
+                out.append(V("solver-altered-array-given-to-objfun", "the array passed to the residual function at (kept) call %d was changed afterwards by the solver" % (j + 1),
+                             forms=sorted(forms)))
+                break
+    return out
